@@ -297,9 +297,67 @@ let config_case (line : string) : string =
                    s_gc_period = z_of_string gc })
   | _ -> failwith ("bad config case: " ^ line)
 
+(* ---------- dirs (C17) ---------- *)
+(* model input (written by lib/props/c17.py from the harness observations):
+   case <id> roots=<n> max=<m> | w <r> <i> | w - | f <r>:<i> ... | ro [<r>:<i> ...] | nop | end
+   one output line per step: "<allowed=0/1 or -> | R0 counts=.. act=.. ctr=..;R1 ..." *)
+let dirs_roots_string (s : dr_state) : string =
+  let acts = List.map (fun (r, i) -> (int_of_nat r, int_of_nat i)) s.dr_active in
+  let ctrs = List.map int_of_nat s.dr_counts in
+  let lst l = if l = [] then "-" else String.concat "," (List.map string_of_int l) in
+  String.concat ";"
+    (List.mapi
+       (fun r l ->
+         let act = List.sort compare (List.filter_map (fun (r', i) -> if r' = r then Some i else None) acts) in
+         Printf.sprintf "R%d counts=%s act=%s ctr=%d" r (lst (List.map int_of_nat l)) (lst act)
+           (match List.nth_opt ctrs r with Some c -> c | None -> -1))
+       s.dr_disk)
+
+let dirs_id (tok : string) : dr_id =
+  match String.split_on_char ':' tok with
+  | [r; i] -> (nat_of_int (int_of_string r), nat_of_int (int_of_string i))
+  | _ -> failwith ("bad directory token " ^ tok)
+
+let dirs_run (lines : string list) : unit =
+  let st = ref (dr_init (nat_of_int 1) (nat_of_int 1)) in
+  let kv key toks =
+    let p = key ^ "=" in
+    match List.find_opt (fun t -> String.length t > String.length p && String.sub t 0 (String.length p) = p) toks with
+    | Some t -> int_of_string (tail_from t (String.length p))
+    | None -> failwith ("missing " ^ key) in
+  List.iter
+    (fun l ->
+      let l = String.trim l in
+      if l <> "" && l.[0] <> '#' then
+        match split_ws l with
+        | "case" :: id :: rest ->
+          st := dr_init (nat_of_int (kv "roots" rest)) (nat_of_int (kv "max" rest));
+          print_endline ("case " ^ id)
+        | "end" :: _ -> print_endline "end"
+        | ["w"; "-"] ->
+          st := dr_get_phase !st;
+          print_endline ("- | " ^ dirs_roots_string !st)
+        | ["w"; r; i] ->
+          let c = (nat_of_int (int_of_string r), nat_of_int (int_of_string i)) in
+          let a = dr_allowed !st c in
+          st := dr_step !st (DAlloc ([], c));
+          print_endline ((if a then "allowed=1" else "allowed=0") ^ " | " ^ dirs_roots_string !st)
+        | "f" :: ds ->
+          List.iter (fun t -> st := dr_step !st (DFree (dirs_id t))) ds;
+          print_endline ("- | " ^ dirs_roots_string !st)
+        | "ro" :: ds ->
+          (* reopen; core.Load then hands superseded versions to the cleaner *)
+          st := dr_step !st DReopen;
+          List.iter (fun t -> st := dr_step !st (DFree (dirs_id t))) ds;
+          print_endline ("- | " ^ dirs_roots_string !st)
+        | ["nop"] -> print_endline ("- | " ^ dirs_roots_string !st)
+        | _ -> failwith ("bad dirs line: " ^ l))
+    lines
+
 let () =
   let cmd = Sys.argv.(1) in
   let lines = read_lines Sys.argv.(2) in
+  if cmd = "dirs" then (dirs_run lines; exit 0);
   if cmd = "hist" then (hist_run m_init mstep (fun m -> List.map snd m.m_cont) lines; exit 0);
   if cmd = "hist-spec" then
     (hist_run a_init astep
